@@ -203,8 +203,11 @@ def analyse(ctx, repo, prop):
         off = d_.kw.get("offsets", d_.args[1] if len(d_.args) > 1 else Num(0))
         offs.append(off.p if isinstance(off, Num) else None)
         shp = d_.kw.get("shape")
-        ctx.check(isinstance(shp, TupleV) and len(shp.items) == 2 and all(isinstance(x, Num) and x.p == n_points for x in shp.items),
-                  "LAYOUT", f"{tag}.ray.shape", "radial-neighbour matrix has shape (n_t*n_o, n_t*n_o)", where, "diags(..., shape=...)", witness=vstr(shp))
+        if isinstance(shp, TupleV) and len(shp.items) == 2 and all(isinstance(x, Num) and not x.p.has_top() for x in shp.items):
+            ctx.check(all(x.p == n_points for x in shp.items), "LAYOUT", f"{tag}.ray.shape", "radial-neighbour matrix has shape (n_t*n_o, n_t*n_o)",
+                      where, "diags(..., shape=...)", witness=vstr(shp))
+        else:
+            ctx.inconclusive("LAYOUT", f"{tag}.ray.shape", "shape of the radial-neighbour matrix not derived", where, witness=vstr(shp)[:200])
     ctx.check(set(map(lambda x: x.pretty() if x is not None else "?", offs)) == {n_o.pretty(), (-n_o).pretty()}, "MIRROR", f"{tag}.ray.offsets",
               "cells (k,o) and (k+1,o) are paired by the two off-diagonals at +n_o and -n_o", where, "diags(my_diags, offsets=+-n_o)",
               witness=f"offsets {[x.pretty() if x is not None else '?' for x in offs]}")
